@@ -377,6 +377,10 @@ def check(ctx):
     rule_insert_remove(ctx)
     rule_broadcast(ctx)
     rule_axes_objects(ctx)
+    # "the array's metadata is kept": provenance rule of C16 restricted to the arrangement operations
+    from . import c16
+    from ..report import Renamed
+    c16.rule_carried(Renamed(ctx, {'*': 'R8'}), only=['transpose', 'swapaxes', 'rollaxis', 'newaxis', 'squeeze', 'repeat', 'broadcast', 'reshape'])
     ctx.not_decided += ['element-wise equality', 'composition laws (transpose(p).transpose(p^-1) == a)', 'numpy.rollaxis / repeat / squeeze semantics']
     ctx.trusted += ['ndarray.transpose / repeat / squeeze and np.rollaxis documented semantics']
     return EXPLANATION
